@@ -248,7 +248,8 @@ class Ctx:
         # "hard": an error that send() reports to its caller (the code reacts by deciding to close);
         # disconnect errnos are mapped to "nothing sent" by HTTPChannel.send and decide nothing by themselves
         from waitress.wasyncore import _DISCONNECTED
-        self.ev({"k": "fault", "c": name, "op": op, "errno": errno.errorcode.get(e, str(e)),
+        sk_ = self.socks.get(name)
+        self.ev({"k": "fault", "c": name, "op": op, "errno": errno.errorcode.get(e, str(e)), "wire": len(sk_.wire) if sk_ is not None else 0,
                  "hard": bool(op == "send" and e not in _DISCONNECTED and e != errno.EWOULDBLOCK)})
 
     def on_write_soon(self, chan, data):
@@ -411,6 +412,7 @@ class Ctx:
                           "client_done": self.client_done[name], "maxpending": self.maxpending.get(name, 0),
                           "maxwrite": self.maxwrite.get(name, 0), "inbox": sum(len(x) for x in sk.inbox),
                           "peer_closed": sk.peer_closed or sk.eof,
+                          "wire_len": len(sk.wire),
                           "bufs_closed": all(_buf_closed(b) for b in (dd.get("_wv_outbufs") or [])) if sk.closed else True})
         io = S.threads.get("io")
         workers_alive = sum(1 for n in S.order if n.startswith("w") and not S.threads[n].done)
